@@ -20,8 +20,8 @@ PyatvModel/C18/Lemmas.lean `absRun_sound`, one induction over scripts).
                               a refused call leaves the active one untouched;
 * `stream_accepted_when_idle`, `second_stream_ok`
                               after any failed / cancelled / refused stream a new stream_file is accepted;
-* `orig_*_counterexample`     the scripts of the pinned tree BEFORE the six `fix:` commits violate
-                              the property (D13 a–f) — kept as documentation of the defects.
+* `orig_*_counterexample`     the scripts of the pinned tree BEFORE the eight `fix:` commits violate
+                              the property (D13 a–h) — kept as documentation of the defects.
 -/
 namespace PyatvModel.Props.C18
 open PyatvModel.C18
@@ -86,8 +86,8 @@ theorem released_on_return (c : Bool) (p : Prog) (hb : Bracketed c p = true)
   rw [St.ledger, hown, h.1]
   simp [start]
 
-example : ReleasesOnReturn true (playUrl true) = true ∧
-    (run none (playUrl true) (start [])).2 = .ok := by decide
+example : ReleasesOnReturn true (playUrl true true) = true ∧
+    (run none (playUrl true true) (start [])).2 = .ok := by decide
 
 /-! ### the concrete scripts satisfy the discipline -/
 
@@ -102,8 +102,8 @@ theorem connect_bracketed (ps : List Nat) : Bracketed false (connectScript ps) =
 theorem streamFile_bracketed : ∀ v m p, Bracketed true (streamFile v m p) = true ∧
     ReleasesOnReturn true (streamFile v m p) = true := by decide +kernel
 
-theorem playUrl_bracketed : ∀ l, Bracketed true (playUrl l) = true ∧
-    ReleasesOnReturn true (playUrl l) = true := by decide +kernel
+theorem playUrl_bracketed : ∀ l p, Bracketed true (playUrl l p) = true ∧
+    ReleasesOnReturn true (playUrl l p) = true := by decide +kernel
 
 /-! ### the property, per operation -/
 
@@ -142,12 +142,12 @@ theorem stream_file_leak_free (v m p : Bool) (env : List Res) (fault : Fault)
   (leak_free true _ (streamFile_bracketed v m p).1 env fault (inScope_true _) hfail).2.2
 
 /-- play_url: same statement. -/
-theorem play_url_leak_free (l : Bool) (env : List Res) (fault : Fault)
-    (hfail : (run fault (playUrl l) (start env)).2 ≠ .ok) :
-    (run fault (playUrl l) (start env)).1.ledger = env :=
-  (leak_free true _ (playUrl_bracketed l).1 env fault (inScope_true _) hfail).2.2
+theorem play_url_leak_free (l p : Bool) (env : List Res) (fault : Fault)
+    (hfail : (run fault (playUrl l p) (start env)).2 ≠ .ok) :
+    (run fault (playUrl l p) (start env)).1.ledger = env :=
+  (leak_free true _ (playUrl_bracketed l p).1 env fault (inScope_true _) hfail).2.2
 
-example : (run (some (0, .cancel)) (playUrl true) (start [.acquired])).2 ≠ .ok := by decide
+example : (run (some (0, .cancel)) (playUrl true true) (start [.acquired])).2 ≠ .ok := by decide
 
 /-! ### refusal -/
 
@@ -170,19 +170,19 @@ example : Res.acquired ∈ [Res.acquired, Res.rconn, Res.takeover 0] := by decid
 
 /-- play_url while RemoteControl is taken over (an active play_url or stream_file, or another
     protocol) is refused and — by `play_url_leak_free` — leaves the ledger as it was. -/
-theorem play_refused_while_taken_over (l : Bool) (env : List Res)
+theorem play_refused_while_taken_over (l p : Bool) (env : List Res)
     (h : ∃ r ∈ airplayTakeover, r ∈ env) :
-    (run none (playUrl l) (start env)).2 = .exc .refused ∧
-    (run none (playUrl l) (start env)).1.ledger = env := by
-  have hout : (run none (playUrl l) (start env)).2 = .exc .refused := by
+    (run none (playUrl l p) (start env)).2 = .exc .refused ∧
+    (run none (playUrl l p) (start env)).1.ledger = env := by
+  have hout : (run none (playUrl l p) (start env)).2 = .exc .refused := by
     obtain ⟨r, hr, henv⟩ := h
     have hr3 : r = Res.takeover 3 := by
       simpa [airplayTakeover, PyatvModel.Gen.C18.airplayTakeoverIdx] using hr
     subst hr3
-    cases l <;>
-      simp [playUrl, run, Prog.ofList, airplayTakeover, PyatvModel.Gen.C18.airplayTakeoverIdx,
+    cases l <;> cases p <;>
+      simp [playUrl, playUrlWith, run, Prog.ofList, airplayTakeover, PyatvModel.Gen.C18.airplayTakeoverIdx,
         held, start, henv]
-  exact ⟨hout, play_url_leak_free l env none (by rw [hout]; simp)⟩
+  exact ⟨hout, play_url_leak_free l p env none (by rw [hout]; simp)⟩
 
 example : ∃ r ∈ airplayTakeover, r ∈ [Res.takeover 3, Res.playConn] := by decide
 
@@ -223,10 +223,10 @@ theorem second_stream_ok (first : Prog) (hb : Bracketed true first = true) (env 
   rw [h]
   exact ⟨rfl, fun h1 h2 => (stream_accepted_when_idle v m p env h1 h2).1⟩
 
-example : Bracketed true (playUrl true) = true ∧
-    (run (some (1, .fail)) (playUrl true) (start [])).2 ≠ .ok := by decide
+example : Bracketed true (playUrl true true) = true ∧
+    (run (some (1, .fail)) (playUrl true true) (start [])).2 ≠ .ok := by decide
 
-/-! ### the pinned tree before the repair (D13 a–f): the property is false of it -/
+/-! ### the pinned tree before the repair (D13 a–h): the property is false of it -/
 
 /-- D13a: second protocol fails ⇒ the first stays connected (and its task runs on). -/
 theorem orig_connect_counterexample :
@@ -263,6 +263,16 @@ theorem orig_send_audio_counterexample :
     (run (some (14, .fail)) (Orig.streamFileF true true true) (start [])).2 = .exc .fail ∧
     (run (some (14, .fail)) (Orig.streamFileF true true true) (start [])).1.ledger = [.audiosock] ∧
     Bracketed true (Orig.streamFileF true true true) = false := by decide
+
+/-- D13g: play_url fails after the player opened its timing server ⇒ that UDP endpoint stays
+    open.  D13h: AirPlay 2 play_url never tore the protocol down ⇒ event channel and feedback
+    task survive even a normal return. -/
+theorem orig_player_counterexample :
+    (run (some (3, .fail)) (Orig.playUrlG false false) (start [])).1.ledger = [.ptiming] ∧
+    (run none (Orig.playUrlH false true) (start [])).2 = .ok ∧
+    (run none (Orig.playUrlH false true) (start [])).1.ledger = [.fbtask, .eventch] ∧
+    Bracketed true (Orig.playUrlG false false) = false ∧
+    Bracketed true (Orig.playUrlH false true) = false := by decide
 
 /-- D13c: local file, takeover refused ⇒ the web server keeps running. -/
 theorem orig_play_counterexample :
